@@ -87,6 +87,81 @@ fn c04_densemap_pairs() {
     map_pairs::<3, 0, 0, 3>();
 }
 
+// ---- hashable hash containers side by side -------------------------------------------------------
+
+use crate::util::{HashableHashMap, HashableHashSet};
+
+fn set_n<const N: usize>(c: [u8; 2]) -> HashableHashSet<u8> {
+    let mut s = HashableHashSet::new();
+    let mut i = 0;
+    while i < N {
+        s.insert(c[i]);
+        i += 1;
+    }
+    s
+}
+
+/// Two `HashableHashSet<u8>` side by side (tuple / struct fields / vector elements hash the same
+/// way): which of the two adjacent sets holds an element must be visible to the hasher, and equal
+/// pairs must hash identically whatever the insertion order.
+fn set_pairs<const A1: usize, const B1: usize, const A2: usize, const B2: usize>() {
+    let a1: [u8; 2] = [kani::any(), kani::any()];
+    let b1: [u8; 2] = [kani::any(), kani::any()];
+    let a2: [u8; 2] = [kani::any(), kani::any()];
+    let b2: [u8; 2] = [kani::any(), kani::any()];
+    let x = (set_n::<A1>(a1), set_n::<B1>(b1));
+    let y = (set_n::<A2>(a2), set_n::<B2>(b2));
+    let rx = rec_of(&x);
+    let ry = rec_of(&y);
+    assert!(!rx.overflow && !ry.overflow);
+    if x == y {
+        assert!(rx.same_calls(&ry), "C04 equal pairs of hashable sets hash identically");
+    } else {
+        assert!(!rx.same_bytes(&ry), "C04 adjacent hashable sets that hold an element in different places feed different byte streams");
+    }
+    kani::cover!(x != y, "unequal pairs");
+}
+
+#[kani::proof]
+#[kani::unwind(4)]
+fn c04_hashset_adjacent() {
+    set_pairs::<1, 0, 0, 1>();
+}
+#[kani::proof]
+#[kani::unwind(4)]
+fn c04_t_hashset_insertion_order() {
+    // the same two elements inserted in either order: equal sets, identical streams
+    let a: u8 = kani::any();
+    let b: u8 = kani::any();
+    let x = set_n::<2>([a, b]);
+    let y = set_n::<2>([b, a]);
+    assert!(x == y, "C04 set equality ignores insertion order");
+    assert!(rec_of(&x).same_calls(&rec_of(&y)), "C04 equal sets hash identically whatever the insertion order");
+    let z = set_n::<1>([a, 0]);
+    if a != b {
+        assert!(x != z && !rec_of(&x).same_bytes(&rec_of(&z)), "C04 sets of different size feed different streams");
+    }
+    kani::cover!(a != b, "two distinct elements");
+}
+
+/// Same for `HashableHashMap<u8,u8>` with one entry moved between two adjacent maps.
+#[kani::proof]
+#[kani::unwind(4)]
+fn c04_t_hashmap_adjacent() {
+    let (k, v, k2, v2): (u8, u8, u8, u8) = (kani::any(), kani::any(), kani::any(), kani::any());
+    let mut m1: HashableHashMap<u8, u8> = HashableHashMap::new();
+    m1.insert(k, v);
+    let e1: HashableHashMap<u8, u8> = HashableHashMap::new();
+    let mut m2: HashableHashMap<u8, u8> = HashableHashMap::new();
+    m2.insert(k2, v2);
+    let e2: HashableHashMap<u8, u8> = HashableHashMap::new();
+    let x = (m1, e1);
+    let y = (e2, m2);
+    assert!(x != y, "C04 a map holding one entry next to an empty map differs from the mirrored pair");
+    assert!(!rec_of(&x).same_bytes(&rec_of(&y)), "C04 adjacent hashable maps that hold an entry in different places feed different byte streams");
+    kani::cover!(k == k2 && v == v2, "same entry on either side");
+}
+
 // ---- ActorModelState ----------------------------------------------------------------------------
 
 pub struct UA;
